@@ -105,20 +105,23 @@ func evaluateCondition(skel *Skeleton, orig []byte, cond *Condition) error {
 		return fmt.Errorf("condition: %w", err)
 	}
 
+	// A NaN operand is unordered: it is neither equal to, less than nor
+	// greater than anything (including another NaN), so only NOT_EQUAL holds.
+	ordered := cmp != cmpUnordered
 	met := false
 	switch cond.Op {
 	case CondEqual:
-		met = cmp == 0
+		met = ordered && cmp == 0
 	case CondNotEqual:
-		met = cmp != 0
+		met = !ordered || cmp != 0
 	case CondGreaterThan:
-		met = cmp > 0
+		met = ordered && cmp > 0
 	case CondGreaterThanOrEqual:
-		met = cmp >= 0
+		met = ordered && cmp >= 0
 	case CondLessThan:
-		met = cmp < 0
+		met = ordered && cmp < 0
 	case CondLessThanOrEqual:
-		met = cmp <= 0
+		met = ordered && cmp <= 0
 	default:
 		return fmt.Errorf("%w: unknown condition op %d", ErrInvalidOp, cond.Op)
 	}
@@ -128,7 +131,12 @@ func evaluateCondition(skel *Skeleton, orig []byte, cond *Condition) error {
 	return nil
 }
 
-// compareLeafBytes returns -1 / 0 / 1 for a < b, a == b, a > b. Numeric
+// cmpUnordered is returned by compareLeafBytes when the operands have no
+// numeric order, i.e. at least one of two floats is NaN.
+const cmpUnordered = 2
+
+// compareLeafBytes returns -1 / 0 / 1 for a < b, a == b, a > b, or
+// cmpUnordered when a float operand is NaN. Numeric
 // comparisons are class-aware; string / bytes use byte-wise comparison; bool
 // uses canonical false<true ordering. Cross-class comparisons (numeric vs
 // non-numeric, or int vs float) return ErrTypeMismatch.
@@ -154,6 +162,9 @@ func compareLeafBytes(a, b []byte) (int, error) {
 		case classUint:
 			return cmpUint64(au, bu), nil
 		case classFloat:
+			if af != af || bf != bf {
+				return cmpUnordered, nil
+			}
 			return cmpFloat64(af, bf), nil
 		}
 	}
